@@ -1,5 +1,5 @@
 (* C11 — no radio payload can crash the decoder (the part of C11 that is logic of
-   the codec; the gateway and pipeline parts are in Props/C11gw.v). Statements only. *)
+   the codec; the datagram side of the gateway loop follows below; liveness of the goroutines is run-time behaviour exercised by the correspondence suite). Statements only. *)
 From Lospan Require Import Base.Bytes Base.Outcome Model.FrameTypes Gen.Consts Model.MacCmd Model.Frame
   Proof.FrameProof.
 
@@ -16,5 +16,28 @@ Theorem C11_command_loop_no_panic :
   forall buflen pos set region, decode_bounded buflen pos set region <> Panic.
 Proof. exact decode_bounded_no_panic. Qed.
 
+From Lospan Require Import Model.Gateway Proof.GatewayProof.
+(* Datagram side. GwPacket.UnmarshalBinary returns a packet or an error for EVERY byte string ... *)
+Theorem C11_datagram_decode_total : forall data, gw_unmarshal data <> Panic.
+Proof. exact gw_unmarshal_total. Qed.
+(* ... whatever datagram the main loop is given (any identifier, any body, authorised or not), it answers with at most
+   ONE reply, and that reply is the ordinary acknowledgement (PULL_ACK / PUSH_ACK echoing token and version to the
+   sender); registrations and the checks switch are never touched ... *)
+Theorem C11_at_most_the_ordinary_acknowledgement :
+  forall s d,
+  (length (snd (fst (gw_step s d))) <= 1)%nat /\
+  Forall (fun r => (rp_ident r = gw_PullAck \/ rp_ident r = gw_PushAck) /\ rp_token r = gp_token (dg_pkt d) /\ rp_ver r = gp_ver (dg_pkt d) /\
+                   rp_host r = dg_host d /\ rp_port r = dg_port d) (snd (fst (gw_step s d))) /\
+  gs_regs (fst (fst (gw_step s d))) = gs_regs s /\ gs_nochecks (fst (fst (gw_step s d))) = gs_nochecks s.
+Proof. exact any_datagram_at_most_the_ordinary_ack. Qed.
+(* ... so after ANY sequence of datagrams gateways are served exactly as before (who is authorised has not changed;
+   C15_pull_ack and C15_push_ack_and_forward then give the acknowledgement and the forwarding of the next valid one) *)
+Theorem C11_still_serving_after_any_sequence :
+  forall ds s d, authorised (run_gw s ds) d = authorised s d.
+Proof. exact authorised_after_anything. Qed.
+
 Print Assumptions C11_decode_total.
 Print Assumptions C11_command_loop_no_panic.
+Print Assumptions C11_datagram_decode_total.
+Print Assumptions C11_at_most_the_ordinary_acknowledgement.
+Print Assumptions C11_still_serving_after_any_sequence.
